@@ -301,3 +301,67 @@ def ref_traverse(t, spec):
         n = S.lk_len(lk)
         steps.append((r, lk[1][r] if lk[0] == "named" else None, n))
         t = cs[0][1] if lk[0] == "homog" else cs[r][1]
+
+
+# ---------------------------------------------------------------------- runtime presence (documented value-level semantics)
+def ref_absent(t, val, steps):
+    """walk type and runtime value along the index steps of a node: ('absent', depth) for the first Option::None /
+    inactive variant met (depth = keys consumed when it is noticed), ('present',) if there is none, or None when the
+    path crosses something this reference does not judge (gates other than Option / Box, flatten, callbacks, deny)"""
+    d = 0
+    i = 0
+    while True:
+        k = t["k"]
+        if k == "gate":
+            if t["g"] == "Option":
+                if val[1] == 1:
+                    return ("absent", d)
+                t, val = t["t"], val[2]
+                continue
+            if t["g"] == "Box" and val[1] == 0:
+                t, val = t["t"], val[2]
+                continue
+            return None
+        if k in ("leaf", "strleaf"):
+            return ("present",) if i == len(steps) else None
+        if k == "deny":
+            return None
+        if i == len(steps):
+            return ("present",)
+        idx = steps[i][0]
+        if k in ("struct", "enum") and t["flatten"]:
+            return None
+        if k == "struct":
+            fs = S.retained(t)
+            f = fs[idx]
+            if f.get("deny") or f.get("get") or f.get("getmut") or f.get("val") or f.get("defer"):
+                return None
+            t, val = f["t"], val[1][idx]
+        elif k == "enum":
+            fs = S.retained(t)
+            f = fs[idx]
+            if f.get("deny") or f.get("get") or f.get("getmut") or f.get("val") or f.get("defer"):
+                return None
+            d += 1
+            i += 1
+            if val[1] != idx:
+                return ("absent", d)
+            t, val = f["t"], val[2]
+            continue
+        elif k == "arr":
+            t, val = t["t"], val[1][idx]
+        elif k == "tuple":
+            t, val = t["ts"][idx], val[1][idx]
+        elif k in ("result", "bound"):
+            d += 1
+            i += 1
+            if val[1] != idx:
+                return ("absent", d)
+            t, val = (t["t"] if (k == "bound" or idx == 0) else t["e"]), val[2]
+            continue
+        elif k in ("range", "rangefrom", "rangeto"):
+            t, val = t["t"], val[1][idx]
+        else:
+            return None
+        d += 1
+        i += 1
